@@ -27,7 +27,7 @@ EXPLANATION = (
 )
 ASSUMPTIONS = [
     "subprocess.Popen.poll()/wait(), os.kill and the FIFO communicator by library/abstract contract; real OS scheduling of two processes is not modelled",
-    "liveness ('never hangs') is not a contract clause and is not decided; termination is not verified",
+    "liveness ('never hangs') is decided only as a safety bound with ghost state: the parent performs at most 200 reads after the abstract child's last message (the abstract child is gone after a handful of polls); termination in general is not verified",
     "json: float -> repr -> float is the identity on finite doubles (library contract; bounded native check)",
     "trace equality external vs in-process additionally rests on C18 (re-validation of the dumped configuration) and the determinism of SciPy: bounded native evidence only",
     "environment bounded: <= 2 (thorough: 4) evaluations, one fault per run",
@@ -70,11 +70,20 @@ class Process:
         return self.status
 
 
+class Hang(BaseException):
+    """Ghost bound on waiting: raised by the abstract communicator when the parent goes on reading long after the child has sent its
+    last message (the abstract child is gone after at most a handful of polls; a parent that polls it stops long before the bound)."""
+
+
+IDLE_READS_BOUND = 200
+
+
 class Comm:
     """Abstract communicator: read() returns the next scripted request (or None), write() may need a retry."""
 
     def __init__(self, log, script, write_retry, fail_write_at=None):
         self.log, self.script, self.retry, self.fail_write_at, self.writes = log, list(script), write_retry, fail_write_at, 0
+        self.idle_reads = 0
 
     def __enter__(self):
         return self
@@ -83,6 +92,10 @@ class Comm:
         self.log.append(("comm-closed",))
 
     def read(self):
+        if not self.script:
+            self.idle_reads += 1
+            if self.idle_reads > IDLE_READS_BOUND:
+                raise Hang
         return self.script.pop(0) if self.script else None
 
     def write(self, data):
@@ -98,12 +111,51 @@ class Comm:
         return True
 
 
+def _recorded_wire_format(T):
+    """The scenarios of the parent's request loop and of the child's forwarding script / expect the messages the two halves exchange
+    (`{"evaluation": {"variables", "return_functions", "return_gradients"}}` answered by `{"functions", "gradients"}`) - a format
+    private to the module.  If the real child no longer words a standard request that way, those scenarios do not bind (the statement
+    itself is then judged by the conversation of the two real halves, which does not look at the messages)."""
+    from roptvc.sym import ContractUnbound
+
+    sent = []
+
+    class Probe:
+        def write(self, data):
+            sent.append(data)
+            return True
+
+        def read(self):
+            return {"functions": [3.5], "gradients": [[1.0, -2.0]]}
+
+    try:
+        import ropt.plugins.optimizer.external as real
+
+        saved = real.os
+        real.os = OsStub(kill=lambda *a: None)
+        try:
+            po = real._PluginOptimizer(99)
+            po._comm = Probe()
+            po._callback(np.array([0.1, 0.2]), return_functions=True, return_gradients=True)
+        finally:
+            real.os = saved
+    except BaseException:  # noqa: BLE001
+        sent = None
+    if sent != [{"evaluation": {"variables": [0.1, 0.2], "return_functions": True, "return_gradients": True}}]:
+        raise ContractUnbound("the messages the two halves of the external optimizer exchange are not the recorded ones (a standard request is now worded %r): "
+                              "the scenarios written against that private format do not bind" % (sent,))
+
+
 def cases_start(tier):
     for n_eval in (0, 1, 2) + ((3, 4) if tier == "thorough" else ()):
         for fault in ("none", "evaluator-raises", "driver-aborts", "child-reports-error", "child-reports-empty-error", "sending-fails"):
             if fault in ("evaluator-raises", "driver-aborts") and n_eval == 0:
                 continue
             yield "evaluations=%d/%s" % (n_eval, fault), {"n_eval": n_eval, "fault": fault}
+            if fault == "none" and n_eval == 0:
+                # the child is gone before it has asked for the configuration, or for the initial values (it crashed at start-up):
+                # nothing more will ever arrive - the parent notices that the process has ended and reports it, it does not wait on
+                yield "evaluations=0/child-dies-during-the-handshake", {"n_eval": 0, "fault": "child-dies-early"}
             if fault in ("evaluator-raises", "driver-aborts", "child-reports-error") and n_eval == 1:
                 # the same optimizer object is started again after a run that ended that way: the second, healthy, run completes
                 yield "evaluations=%d/%s/then-started-again" % (n_eval, fault), {"n_eval": n_eval, "fault": fault, "restart": True}
@@ -113,12 +165,15 @@ def scn_start(T, case):
     import signal
     import subprocess
 
+    _recorded_wire_format(T)
     n_eval, fault = case["n_eval"], case["fault"]
     log = []
     script = ["config", "initial_values"] + [{"evaluation": {"variables": [0.5 + k, 1.0], "return_functions": True, "return_gradients": bool(k % 2)}} for k in range(n_eval)]
     errmsg = {"child-reports-error": "bad option", "child-reports-empty-error": ""}.get(fault)  # str(exc) of e.g. a bare assert is empty
     if errmsg is not None:
         script.append({"error": errmsg})
+    if fault == "child-dies-early":
+        script = script[:T.choose(2)]
     # non-determinism of the environment, all explored: after how many polls the child is gone, with which status; write retries; which evaluation raises
     alive = T.choose(len(script) + 3)
     status = (0, 3, -9, -15)[T.choose(4)]  # normal exit, error exit, killed by SIGKILL, killed by SIGTERM (by someone else)
@@ -184,6 +239,8 @@ def scn_start(T, case):
             outcome = "returned"
         except _Aborted:
             outcome = "aborted"
+        except Hang:
+            outcome = "hang"
         except TypeError:
             outcome = "type-error"
         except UserError:
@@ -218,6 +275,12 @@ def scn_start(T, case):
     if fault == "sending-fails" and comm.writes > (comm.fail_write_at or 0):
         # a message that cannot be sent ends the run with that error - and the child is stopped like on every other exit path
         T.prove("C20.start.a_failure_to_send_is_raised_not_swallowed", outcome in ("type-error",) or outcome.startswith("runtime-error"))
+    # ---- the parent does not wait for a child that is gone (ghost bound on the reads after the child's last message)
+    T.prove("C20.start.the_parent_stops_reading_once_the_child_is_gone", outcome != "hang")
+    if outcome == "hang":
+        return
+    if fault == "child-dies-early" and status != 0:
+        T.prove("C20.start.a_child_that_died_during_the_handshake_is_reported_as_an_error", outcome.startswith("runtime-error"))
     # ---- death is never success
     if outcome == "returned":
         T.prove("C20.start.normal_return_implies_child_exited_with_status_zero", status == 0)
@@ -243,6 +306,244 @@ def scn_start(T, case):
         T.prove("C20.forward.configuration_request_is_answered_with_the_dumped_configuration", writes[0] is dumped or writes[0] == dumped)
     if len(writes) > 1:
         T.prove("C20.forward.initial_values_are_sent_unchanged", writes[1] == [0.125, 0.75] or writes[1] == "abort")
+
+
+# ------------------------------------------------------------------------------------ the two real halves talking to each other
+def cases_conversation(tier):
+    scripts = {
+        "vectors": [((2,), True, True), ((2,), True, False), ((2,), False, True)],
+        "population-of-three": [((3, 2), True, False), ((3, 2), True, False)],
+        "population-of-one": [((1, 2), True, False), ((2, 2), True, False), ((1, 2), True, False)],
+        "no-request": [],
+    }
+    for name, script in scripts.items():
+        for outcome in ("ok", "wrapped-optimizer-fails", "wrapped-optimizer-fails-without-message") if name != "no-request" else ("ok", "wrapped-optimizer-fails"):
+            yield "%s/%s" % (name, outcome), {"script": [[list(sh), rf, rg] for sh, rf, rg in script], "outcome": outcome}
+        for k in range(len(script)):
+            if k in (0, len(script) - 1):
+                yield "%s/evaluator-raises-at-request-%d" % (name, k), {"script": [[list(sh), rf, rg] for sh, rf, rg in script], "outcome": "evaluator-raises", "at": k}
+        if script:
+            yield "%s/driver-aborts-at-request-0" % name, {"script": [[list(sh), rf, rg] for sh, rf, rg in script], "outcome": "driver-aborts", "at": 0}
+
+
+def scn_conversation(T, case):
+    """The statement itself ('an external run gives the same evaluations and results as the in-process run, errors are raised, the
+    process never outlives the run') on the two REAL halves of the module talking to each other: the parent's start() and - in a
+    thread standing for the process that start() spawns - the child's entry point ropt_plugin_optimizer(), joined by an abstract
+    pipe (JSON text both ways).  What the halves say to each other is their own business; observed are the two ends only: the
+    optimizer that the child creates and starts (a scripted one: it issues requests and records the answers) and the callback that
+    the parent was given."""
+    import json
+    import os as real_os
+    import threading
+    import time as real_time
+    from collections import deque
+    from pathlib import Path
+
+    from ropt.exceptions import OptimizationAborted
+
+    script = [(tuple(sh), rf, rg) for sh, rf, rg in case["script"]]
+    outcome, at = case["outcome"], case.get("at")
+    lock = threading.Lock()
+    to_child, to_parent = deque(), deque()
+    state = {"terminated": False, "ends": 0}
+    seen = {"requests": [], "answers": [], "parent_calls": [], "validated": [], "started": [], "child_status": None, "child_error": None}
+
+    def default(obj):
+        if isinstance(obj, np.ndarray):
+            return obj.tolist()
+        if isinstance(obj, np.generic):
+            return obj.item()
+        if isinstance(obj, real_os.PathLike):
+            return real_os.fspath(obj)
+        raise TypeError("not serialisable: %r" % (obj,))
+
+    class End:
+        """One end of the abstract pipe (the text that travels is JSON, as on the real pipe)."""
+
+        def __init__(self, read_pipe, write_pipe, timeout=1.0):
+            with lock:
+                self.parent = state["ends"] == 0
+                state["ends"] += 1
+            self.paths = (read_pipe, write_pipe)
+
+        def __enter__(self):
+            for pth in self.paths:
+                Path(pth).touch()
+            return self
+
+        def __exit__(self, *a):
+            return False
+
+        def write(self, data):
+            if not self.parent and state["terminated"]:
+                raise SystemExit(143)
+            (to_child if self.parent else to_parent).append(json.dumps(data, default=default))
+            return True
+
+        def read(self):
+            if not self.parent and state["terminated"]:
+                raise SystemExit(143)
+            q = to_parent if self.parent else to_child
+            with lock:
+                text = q.popleft() if q else None
+            if text is None:
+                real_time.sleep(0.0002)
+                return None
+            return json.loads(text)
+
+    class Wrapped:
+        allow_nan, is_parallel = False, False
+
+        def __init__(self, config, callback):
+            self.callback = callback
+
+        def start(self, x):
+            seen["started"].append(x.copy())
+            for k, (shape, rf, rg) in enumerate(script):
+                v = (np.arange(int(np.prod(shape)), dtype=np.float64).reshape(shape) + 1.0) / 8.0 + k
+                seen["requests"].append((v.copy(), rf, rg))
+                seen["answers"].append(self.callback(v, return_functions=rf, return_gradients=rg))
+            if outcome.startswith("wrapped-optimizer-fails"):
+                raise UserError("" if outcome.endswith("without-message") else "bad option")
+
+    def parent_callback(variables, *, return_functions, return_gradients):
+        k = len(seen["parent_calls"])
+        seen["parent_calls"].append((variables.copy(), return_functions, return_gradients))
+        if at == k and outcome == "evaluator-raises":
+            raise UserError("evaluator failed")
+        if at == k and outcome == "driver-aborts":
+            from ropt.enums import OptimizerExitCode
+
+            raise OptimizationAborted(exit_code=OptimizerExitCode.MAX_FUNCTIONS_REACHED)
+        pts = np.atleast_2d(variables)
+        f = np.stack([pts.sum(axis=1), pts[:, 0] * 0.5], axis=-1)
+        f = f if np.ndim(variables) > 1 else f[0]
+        g = np.array([[1.0, 2.0], [0.5, 0.0]]) if return_gradients else np.array([])
+        return (f if return_functions else np.array([])), g
+
+    class Proc:
+        def __init__(self, args):
+            self.args, self.returncode, self.pid = list(args), None, 4242
+            self.thread = threading.Thread(target=self._run, daemon=True)
+            self.thread.start()
+
+        def _run(self):
+            try:
+                seen["child_status"] = entry(self.args)
+            except SystemExit as exc:
+                seen["child_status"] = exc.code if isinstance(exc.code, int) else 0
+            except BaseException as exc:  # noqa: BLE001
+                seen["child_status"], seen["child_error"] = 1, exc
+
+        def poll(self):
+            if self.thread.is_alive():
+                return None
+            self.returncode = seen["child_status"] if seen["child_status"] is not None else 1
+            return self.returncode
+
+        def wait(self, timeout=None):
+            self.thread.join(2.0)
+            return self.poll()
+
+    holder = {}
+
+    def popen(args):
+        holder["proc"] = Proc(args)
+        return holder["proc"]
+
+    def kill(pid, sig):
+        if pid == 4242 and sig != 0:
+            state["terminated"] = True
+
+    dumped = {"optimizer": {"method": "external/scipy/slsqp"}, "variables": {"initial_values": [0.0, 0.0]}, "marker": [1, 2.5, None]}
+    sysstub = types.SimpleNamespace(argv=None, exit=lambda code=0: (_ for _ in ()).throw(SystemExit(code)))
+    stubs = {
+        (MX, "subprocess"): types.SimpleNamespace(Popen=popen, TimeoutExpired=TimeoutError),
+        (MX, "_JSONPipeCommunicator"): End,
+        (MX, "PluginManager"): lambda: types.SimpleNamespace(get_plugin=lambda kind, method: types.SimpleNamespace(create=lambda config, cb: Wrapped(config, cb))),
+        (MX, "EnOptConfig"): types.SimpleNamespace(model_validate=lambda d, **kw: (seen["validated"].append(d), types.SimpleNamespace(optimizer=types.SimpleNamespace(method=d["optimizer"]["method"])))[1]),
+        (MX, "os"): OsStub(kill=kill, getpid=lambda: 1),
+        (MX, "time"): types.SimpleNamespace(sleep=lambda s_: real_time.sleep(0.0002)),
+        (MX, "atexit"): types.SimpleNamespace(register=lambda f: None),
+        (MX, "sys"): sysstub,
+    }
+    if T.symbolic:
+        sh = T.shadow([MX], stubs)
+        cls = T.under_contract(sh, MX, "ExternalOptimizer")
+        for q in ("__init__", "start"):
+            T.under_contract(sh, MX, "ExternalOptimizer." + q)
+        entry_fn = T.under_contract(sh, MX, "ropt_plugin_optimizer")
+        restore = None
+    else:
+        import ropt.plugins.optimizer.external as real
+
+        restore = (real, {k[1]: getattr(real, k[1]) for k in stubs})
+        for k, v in stubs.items():
+            setattr(real, k[1], v)
+        cls, entry_fn = real.ExternalOptimizer, real.ropt_plugin_optimizer
+
+    def entry(args):
+        sysstub.argv = ["ropt_plugin_optimizer"] + list(args)[1:]
+        return entry_fn()
+
+    x0 = np.array([0.125, 0.75])
+    try:
+        opt = cls(types.SimpleNamespace(model_dump=lambda round_trip=False: dumped, optimizer=types.SimpleNamespace(method="external/scipy/slsqp")), parent_callback)
+        try:
+            opt.start(x0)
+            ended = "returned"
+        except OptimizationAborted:
+            ended = "aborted"
+        except UserError:
+            ended = "user-error"
+        except RuntimeError as exc:
+            ended = "runtime-error:" + str(exc)
+        proc = holder.get("proc")
+        if proc is not None:
+            proc.thread.join(2.0)
+    finally:
+        state["terminated"] = True
+        if restore:
+            for k, v in restore[1].items():
+                setattr(restore[0], k, v)
+    def f64(a):
+        # (under the engine arrays are the shim's: their element type is carried in `sdtype`)
+        return isinstance(a, np.ndarray) and (a.dtype == np.float64 or getattr(a, "sdtype", None) in (np.float64, float))
+
+    def same(a, b):
+        a, b = np.asarray(a, dtype=object), np.asarray(b, dtype=object)
+        return a.shape == b.shape and all(float(x) == float(y) for x, y in zip(a.reshape(-1), b.reshape(-1)))
+
+    T.prove("C20.conversation.a_process_is_started_and_does_not_outlive_the_run", proc is not None and not proc.thread.is_alive())
+    if proc is None:
+        return
+    n_served = len(script) if at is None else at + 1
+    T.prove("C20.conversation.the_child_validates_the_configuration_the_parent_holds", seen["validated"] == [dumped], "validated: %r; the child ended with %r %r" % (seen["validated"], seen["child_status"], seen["child_error"]))
+    T.prove("C20.conversation.the_wrapped_optimizer_is_started_once_at_the_initial_values_of_the_run",
+            len(seen["started"]) == 1 and f64(seen["started"][0]) and same(seen["started"][0], x0))
+    # the same evaluations as in-process: every request of the wrapped optimizer reaches the callback once, with the same array
+    # (same shape - a population of one member is a population - same values, same flags), in order
+    T.prove("C20.conversation.every_request_reaches_the_callback_exactly_once_in_order", len(seen["parent_calls"]) == min(n_served, len(seen["requests"])) and len(seen["requests"]) >= min(n_served, len(script)))
+    for (v, rf, rg), (pv, prf, prg) in zip(seen["requests"], seen["parent_calls"]):
+        T.prove("C20.conversation.the_callback_gets_exactly_the_requested_array_and_flags", f64(pv) and same(pv, v) and prf is rf and prg is rg)
+    # the same results: what the wrapped optimizer gets back is what the callback returned (shape, dtype, values)
+    for k, (fa, ga) in enumerate(seen["answers"]):
+        v, rf, rg = seen["requests"][k]
+        pts = np.atleast_2d(v)
+        f = np.stack([pts.sum(axis=1), pts[:, 0] * 0.5], axis=-1)
+        f = f if v.ndim > 1 else f[0]
+        wf, wg = (f if rf else np.array([])), (np.array([[1.0, 2.0], [0.5, 0.0]]) if rg else np.array([]))
+        T.prove("C20.conversation.the_wrapped_optimizer_gets_exactly_the_results_of_the_callback", f64(fa) and f64(ga) and same(fa, wf) and same(ga, wg))
+    # the same way of ending
+    if outcome == "ok":
+        T.prove("C20.conversation.a_run_that_completes_returns_normally", ended == "returned" and len(seen["answers"]) == len(script) and seen["child_status"] == 0, ended)
+    elif outcome.startswith("wrapped-optimizer-fails"):
+        T.prove("C20.conversation.an_error_of_the_wrapped_optimizer_is_raised_by_the_parent", ended.startswith("runtime-error:"), ended)
+    elif outcome == "evaluator-raises":
+        T.prove("C20.conversation.an_exception_of_the_evaluator_reaches_the_caller_and_ends_the_child", ended == "user-error" and len(seen["answers"]) == at, ended)
+    else:
+        T.prove("C20.conversation.an_abort_of_the_driver_reaches_the_caller_and_ends_the_child", ended == "aborted" and len(seen["answers"]) == at, ended)
 
 
 # ------------------------------------------------------------------------------------ the wrapper mirrors the wrapped optimizer's properties
@@ -291,6 +592,8 @@ def cases_child(tier):
 
 def scn_child(T, case):
     from ropt.exceptions import OptimizationAborted
+
+    _recorded_wire_format(T)
 
     log = []
     answer = "abort" if case["answer"] == "abort" else {"functions": [3.5], "gradients": [[1.0, -2.0]]}
@@ -550,6 +853,7 @@ def scn_child_run(T, case):
     the configured initial values); an abort ends it with status 0, any other exception is reported to the parent and gives 1."""
     from ropt.exceptions import OptimizationAborted
 
+    _recorded_wire_format(T)
     log = []
     start_vector = [1.5, 0.75, -1.0]
     answers = {"config": {"optimizer": {"method": "external/scipy/slsqp"}, "variables": {"initial_values": [0.0, 0.0, 0.0]}},
@@ -713,6 +1017,7 @@ SCENARIOS = [
     Scenario("child_side_run", scn_child_run, cases_child_run, {"quick": 1, "thorough": 1}),
     Scenario("validated_success_threshold", scn_threshold, cases_threshold, {"quick": 2, "thorough": 10}),
     Scenario("child_process_entry_point", scn_entry, cases_entry, {"quick": 1, "thorough": 1}),
+    Scenario("conversation_of_the_two_real_halves", scn_conversation, cases_conversation, {"quick": 2, "thorough": 5}),
 ]
 
 MANIFEST = {
